@@ -12,7 +12,8 @@ def registry : List Obj := [
   pureObj pureElection,
   pureObj pureTicker,
   pureObj pureBeforeTime,
-  pureObj pureMverify
+  pureObj pureMverify,
+  pureObj pureAddMomentum
 ]
 
 end ZV.Driver
